@@ -48,7 +48,18 @@ pub struct T14 {
     /// each app runs `reconnect - 1` more frames, and the handshake is repeated on a new connection.
     #[serde(default)]
     pub reconnect: u8,
+    /// Unrelated local state registered before the shared registrations (bits 0-1: server app, bits 2-3:
+    /// client app; 1 = a local resource, 2 = a local component, 3 = both): not part of the protocol.
+    #[serde(default)]
+    pub local_state: u8,
 }
+
+#[derive(Resource, Default)]
+struct LocalRes(#[allow(dead_code)] u32);
+#[derive(Component)]
+struct LocalComp;
+#[derive(Component)]
+struct LocalComp2;
 
 fn canon(seq: &[Reg]) -> Vec<Reg> {
     seq.iter().map(|r| if let Reg::Rule(c) = r { Reg::RulePrio(*c, 1) } else { *r }).collect()
@@ -152,11 +163,22 @@ fn read_requests(mut r: ResMut<Requests>, mut ev: EventReader<DisconnectRequest>
 }
 
 pub fn build(seq: &[Reg]) -> App {
+    build_with(seq, 0)
+}
+
+pub fn build_with(seq: &[Reg], local: u8) -> App {
     let mut app = App::new();
     app.add_plugins((
         MinimalPlugins,
         RepliconPlugins.set(ServerPlugin { tick_policy: TickPolicy::EveryFrame, ..Default::default() }),
     ));
+    if local & 1 != 0 {
+        app.init_resource::<LocalRes>();
+    }
+    if local & 2 != 0 {
+        app.world_mut().register_component::<LocalComp>();
+        app.world_mut().register_component::<LocalComp2>();
+    }
     apply(&mut app, seq);
     app.init_resource::<Requests>().add_systems(Update, read_requests);
     app.finish();
@@ -196,7 +218,7 @@ impl C14 {
         let mut v = |oracle: &str, detail: String| {
             violations.push(Violation { prop: "C14".into(), oracle: oracle.into(), detail, step: 0 });
         };
-        let built = catch_unwind(AssertUnwindSafe(|| (build(&t.server), build(&t.client))));
+        let built = catch_unwind(AssertUnwindSafe(|| (build_with(&t.server, t.local_state & 3), build_with(&t.client, (t.local_state >> 2) & 3))));
         let Ok((mut server, mut client)) = built else {
             v("panic", "building the apps panicked".into());
             return Outcome { violations, stats, harness_error: None, log };
@@ -439,7 +461,7 @@ impl Engine for C14 {
         let server = random_seq(&mut r);
         let client = if r.chance(35) { server.clone() } else { edit(&mut r, &server) };
         let (server, client) = if r.chance(50) { (server, client) } else { (client, server) };
-        T14 { server, client, delay: r.weighted(&[5, 3, 1, 1]) as u8, late_client: r.chance(20), reconnect: r.weighted(&[6, 2, 1, 1]) as u8 }
+        T14 { server, client, delay: r.weighted(&[5, 3, 1, 1]) as u8, late_client: r.chance(20), reconnect: r.weighted(&[6, 2, 1, 1]) as u8, local_state: if r.chance(30) { r.below(16) as u8 } else { 0 } }
     }
 
     fn run(t: &T14, verbose: bool, _no_taint: bool) -> Outcome {
@@ -490,6 +512,11 @@ impl Engine for C14 {
             c.reconnect -= 1;
             v.push(c);
         }
+        if t.local_state != 0 {
+            let mut c = t.clone();
+            c.local_state = 0;
+            v.push(c);
+        }
         v
     }
 
@@ -508,24 +535,25 @@ impl Engine for C14 {
         let trg_a = vec![Reg::STrigger(0), Reg::STrigger(1), Reg::IndepTrigger(0)];
         let trg_b = vec![Reg::STrigger(0), Reg::STrigger(1), Reg::IndepTrigger(1)];
         vec![
-            Directed { id: "reconnect_equal", trace: T14 { server: base.clone(), client: base.clone(), delay: 0, late_client: false, reconnect: 1 }, symptom_oracles: vec![] },
+            Directed { id: "local_state", trace: T14 { server: base.clone(), client: base.clone(), delay: 0, late_client: false, reconnect: 0, local_state: 0b1100 }, symptom_oracles: vec![] },
+            Directed { id: "reconnect_equal", trace: T14 { server: base.clone(), client: base.clone(), delay: 0, late_client: false, reconnect: 1, local_state: 0 }, symptom_oracles: vec![] },
             Directed { id: "reconnect_different", trace: T14 { server: base.clone(), client: {
                 let mut x = base.clone();
                 x.swap(0, 1);
                 x
-            }, delay: 0, late_client: false, reconnect: 2 }, symptom_oracles: vec![] },
-            Directed { id: "independence_type", trace: T14 { server: ind_a, client: ind_b, delay: 0, late_client: false, reconnect: 0 }, symptom_oracles: vec![] },
-            Directed { id: "independence_trigger_type", trace: T14 { server: trg_a, client: trg_b, delay: 1, late_client: false, reconnect: 0 }, symptom_oracles: vec![] },
-            Directed { id: "independence_kind", trace: T14 { server: both, client: both2, delay: 0, late_client: false, reconnect: 0 }, symptom_oracles: vec![] },
-            Directed { id: "equal", trace: T14 { server: base.clone(), client: base.clone(), delay: 1, late_client: false, reconnect: 0 }, symptom_oracles: vec![] },
-            Directed { id: "order", trace: T14 { server: base.clone(), client: swapped, delay: 0, late_client: false, reconnect: 0 }, symptom_oracles: vec![] },
-            Directed { id: "priority", trace: T14 { server: base.clone(), client: prio, delay: 2, late_client: true, reconnect: 0 }, symptom_oracles: vec![] },
-            Directed { id: "independence", trace: T14 { server: indep, client: base, delay: 0, late_client: false, reconnect: 0 }, symptom_oracles: vec![] },
+            }, delay: 0, late_client: false, reconnect: 2, local_state: 0 }, symptom_oracles: vec![] },
+            Directed { id: "independence_type", trace: T14 { server: ind_a, client: ind_b, delay: 0, late_client: false, reconnect: 0, local_state: 0 }, symptom_oracles: vec![] },
+            Directed { id: "independence_trigger_type", trace: T14 { server: trg_a, client: trg_b, delay: 1, late_client: false, reconnect: 0, local_state: 0 }, symptom_oracles: vec![] },
+            Directed { id: "independence_kind", trace: T14 { server: both, client: both2, delay: 0, late_client: false, reconnect: 0, local_state: 0 }, symptom_oracles: vec![] },
+            Directed { id: "equal", trace: T14 { server: base.clone(), client: base.clone(), delay: 1, late_client: false, reconnect: 0, local_state: 0 }, symptom_oracles: vec![] },
+            Directed { id: "order", trace: T14 { server: base.clone(), client: swapped, delay: 0, late_client: false, reconnect: 0, local_state: 0 }, symptom_oracles: vec![] },
+            Directed { id: "priority", trace: T14 { server: base.clone(), client: prio, delay: 2, late_client: true, reconnect: 0, local_state: 0 }, symptom_oracles: vec![] },
+            Directed { id: "independence", trace: T14 { server: indep, client: base, delay: 0, late_client: false, reconnect: 0, local_state: 0 }, symptom_oracles: vec![] },
         ]
     }
 
     fn rule() -> &'static str {
-        "each evaluation builds a server app and a client app from two registration sequences (equal, or differing by one edit: swap, insert, delete, change of kind, priority or type; <= 10 registrations over 6 component types, 2 bundles and 3 event types) and simulates the default protocol-check handshake between them with the hash message held for 0-3 server frames; in 40% of the evaluations the connection is then closed on both ends and the handshake repeated by the same two apps 1-3 frames later. distinct_nontrivial counts distinct (equal?, delay, client stall, sequence length, edit class, reconnect gap) combinations"
+        "each evaluation builds a server app and a client app from two registration sequences (equal, or differing by one edit: swap, insert, delete, change of kind, priority or type; <= 10 registrations over 6 component types, 2 bundles and 3 event types) and simulates the default protocol-check handshake between them with the hash message held for 0-3 server frames; in 30% one or both apps carry unrelated local state (a resource, components) registered before the shared registrations; in 40% of the evaluations the connection is then closed on both ends and the handshake repeated by the same two apps 1-3 frames later. distinct_nontrivial counts distinct (equal?, delay, client stall, sequence length, edit class, reconnect gap) combinations"
     }
 
     fn components() -> serde_json::Value {
